@@ -166,6 +166,7 @@ class Interp:
         self._new_id = 0
         self.unresolved = []
         self.loop_shape = {}
+        self.heap_base = {}       # key of a base object -> its term (to name the entry value of an attribute)
         self.loop_init = {}
         self.pending = []
         self.record = True
@@ -288,6 +289,10 @@ class Interp:
         def missing(k):
             if not isinstance(k, str) and k[0] == selfk and not in_ctor:
                 return T.mk_attr(sym('self'), k[1])
+            if not isinstance(k, str) and k[0] != selfk and k[0] in self.heap_base:
+                ba = self.heap_base[k[0]].single_atom()
+                if ba is None or ba.kind != 'new':        # an object that existed before the call keeps its attribute
+                    return T.mk_attr(self.heap_base[k[0]], k[1])
             return Term.of(Atom('undef', k if isinstance(k, str) else k[0] + '.' + k[1]))
         for k in set(a) | set(b):
             va = a.get(k)
@@ -582,6 +587,19 @@ class Interp:
         if ia is not None and ia.kind in ('list', 'tuple') and len(ia.args) <= 4 and not st.orelse and \
                 not any(isinstance(n, (ast.Break, ast.Continue)) for b_ in st.body for n in ast.walk(b_)):
             return self._for_unrolled(st, fr, list(ia.args))
+        # for k, v in {literal dictionary}.items() / for k in {literal}: one iteration per known entry
+        if ia is not None and ia.kind == 'call' and ia.args[0] in ('items', 'keys', 'values') and ia.args[1] and not st.orelse and \
+                not any(isinstance(n, (ast.Break, ast.Continue)) for b_ in st.body for n in ast.walk(b_)):
+            da = ia.args[1][0].single_atom()
+            if da is not None and da.kind == 'dict' and len(da.args) <= 24 and all(
+                    k_.single_atom() is not None and k_.single_atom().kind in ('str', 'num') or k_.const() is not None for k_, _ in da.args):
+                if ia.args[0] == 'items':
+                    items = [T.mk_tuple([k_, v_]) for k_, v_ in da.args]
+                elif ia.args[0] == 'keys':
+                    items = [k_ for k_, _ in da.args]
+                else:
+                    items = [v_ for _, v_ in da.args]
+                return self._for_unrolled(st, fr, items)
         return self._loop(st, fr, 'for')
 
     def _for_unrolled(self, st, fr, items):
@@ -803,8 +821,10 @@ class Interp:
                     em[3].add(tgt.attr)
                     if em[4]:
                         em[2].add(tgt.attr)
+                self.heap_base[base.key] = base
                 self.heap[(base.key, tgt.attr)] = T.mk_attr(base, tgt.attr)
             else:
+                self.heap_base[base.key] = base
                 self.heap[(base.key, tgt.attr)] = v
             if not quiet:
                 self.emit('store', st, fr, target='attr', base=base, name=tgt.attr, value=v, aug=aug,
@@ -826,6 +846,7 @@ class Interp:
             fr.env[node.id] = val
         elif isinstance(node, ast.Attribute):
             base = self.ev(node.value, fr)
+            self.heap_base[base.key] = base
             self.heap[(base.key, node.attr)] = val
 
     # ------------------------------------------------------------------ closures
